@@ -291,6 +291,62 @@ theorem C01_write_read_lp (m : Model) (e : Enc) (f : File Vals) (bytes : Bytes) 
       obtain ⟨kv, hkv, rfl⟩ := List.mem_map.1 hl
       exact hlt kv hkv
 
+/-- newline framing of the writable records -/
+theorem framed_eq_joinNL (m : Model) (e : Enc) (hlp : e.lp = false) :
+    ∀ (krs : List (Kind × Vals)), (∀ kv ∈ krs, (writeLine m e kv.1 (some kv.2)).isSome = true) →
+      krs.flatMap (fun kv => (writeLine m e kv.1 (some kv.2)).getD []) = joinNL (krs.map (fun kv => bodyLn m e kv.1 kv.2))
+  | [], _ => by simp [joinNL]
+  | kv :: r, hw => by
+    have ih := framed_eq_joinNL m e hlp r (fun x hx => hw x (by simp [hx]))
+    have hsome := hw kv (by simp)
+    unfold writeLine at hsome
+    simp only [hlp, Bool.false_eq_true, if_false] at hsome
+    cases hb : bodyOf m e.ebcdic kv.1 (some kv.2) with
+    | none => simp [hb] at hsome
+    | some b =>
+      have hx : writeLine m e kv.1 (some kv.2) = some (b ++ [0x0A]) := by
+        unfold writeLine
+        simp [hlp, hb]
+      simp only [List.flatMap_cons, hx, Option.getD_some, ih, List.map_cons, joinNL, bodyLn, hb]
+
+/-- **C01 on the model, newline framing, writer to reader**: as `C01_write_read_lp`, for files none of whose
+records holds a line feed or ends in a carriage return (which newline framing cannot carry) -/
+theorem C01_write_read_nl (m : Model) (e : Enc) (f : File Vals) (bytes : Bytes) (hlp : e.lp = false)
+    (hw : writeFile m e f = some bytes) (hwf : TreeWF f) (hok : FileOK m e (bodyLn m e) f)
+    (hno : ∀ l ∈ fileLines (bodyLn m e) f, (0x0A : UInt8) ∉ l) (hcr : ∀ l ∈ fileLines (bodyLn m e) f, dropCR l = l) :
+    readFile m e bytes = (f, none) := by
+  unfold writeFile at hw
+  split at hw
+  · cases hw
+  · split at hw
+    · cases hw
+    · obtain ⟨hout, hall⟩ := foldl_wstep_some m e f.flatten [] bytes hw
+      have hfl := flatten_eq_fileRecs m e f hwf
+      let krs : List (Kind × Vals) :=
+        [(Kind.fileHeader, f.header)] ++ (f.cashLetters.flatMap (clRecs (bodyLn m e))).map (fun r => (r.1, r.2.1)) ++
+          [(Kind.fileControl, f.control)]
+      have hkrs : f.flatten = krs.map (fun kv => (kv.1, some kv.2)) := by
+        rw [hfl]
+        simp [krs, unrec, Function.comp_def]
+      have hw' : ∀ kv ∈ krs, (writeLine m e kv.1 (some kv.2)).isSome = true := by
+        intro kv hkv
+        exact hall (kv.1, some kv.2) (by rw [hkrs]; exact List.mem_map.2 ⟨kv, hkv, rfl⟩)
+      have hj := framed_eq_joinNL m e hlp krs hw'
+      have hlines : krs.map (fun kv => bodyLn m e kv.1 kv.2) = fileLines (bodyLn m e) f := by
+        have hmid : ((f.cashLetters.flatMap (clRecs (bodyLn m e))).map (fun r => (r.1, r.2.1))).map (fun kv => bodyLn m e kv.1 kv.2)
+            = (f.cashLetters.flatMap (clRecs (bodyLn m e))).map (·.2.2) := by
+          rw [List.map_map]
+          apply List.map_congr_left
+          intro r hr
+          have := lineOK_flatMap (bodyLn m e) f.cashLetters (clRecs (bodyLn m e)) (fun cl _ => lineOK_cashLetter (bodyLn m e) cl) r hr
+          exact this.symm
+        simp only [krs, fileLines, List.map_append, List.map_cons, List.map_nil, hmid]
+      have hbytes : bytes = joinNL (fileLines (bodyLn m e) f) := by
+        rw [hout, hkrs, List.flatMap_map, List.nil_append, ← hlines]
+        exact hj
+      rw [hbytes]
+      exact C01_roundtrip_nl m e (bodyLn m e) f hlp hok hno hcr
+
 /-- under ASCII the body of a record is the record: the length premise is void -/
 theorem C01_write_read_lp_ascii (m : Model) (e : Enc) (f : File Vals) (bytes : Bytes) (hlp : e.lp = true) (ha : e.ebcdic = false)
     (hw : writeFile m e f = some bytes) (hwf : TreeWF f) (hok : FileOK m e (bodyLn m e) f) :
